@@ -1,6 +1,7 @@
 package checks
 
 import (
+	"runtime/debug"
 	"sort"
 	"bytes"
 	"compress/flate"
@@ -424,7 +425,7 @@ func c09Metadata(t *core.T, doc []byte, family string, idp *saml.IdentityProvide
 	go func() {
 		defer func() {
 			if r := recover(); r != nil {
-				ch <- res{pan: r}
+				ch <- res{pan: fmt.Sprintf("%v\n%s", r, debug.Stack())}
 			}
 		}()
 		md, err := samlsp.ParseMetadata(doc)
@@ -438,12 +439,13 @@ func c09Metadata(t *core.T, doc []byte, family string, idp *saml.IdentityProvide
 		t.Input("metadata_xml", string(trunc(doc, 4000)))
 		return // (the stuck goroutine is abandoned; the worker process ends with the run)
 	}
-	_, pan := anyContract(t, "samlsp.ParseMetadata", family, func() (bool, error) {
-		if r.pan != nil {
-			panic(r.pan)
-		}
-		return r.md != nil, r.err
-	})
+	if r.pan != nil {
+		st := fmt.Sprint(r.pan)
+		t.Fail("C09/samlsp.ParseMetadata/"+family+"/panic@"+core.PanicSite(st), "samlsp.ParseMetadata panicked: %s", trunc([]byte(st), 1500))
+		t.Input("metadata_xml", string(trunc(doc, 4000)))
+		return
+	}
+	_, pan := anyContract(t, "samlsp.ParseMetadata", family, func() (bool, error) { return r.md != nil, r.err })
 	if pan {
 		t.Input("metadata_xml", string(trunc(doc, 4000)))
 	}
